@@ -1,4 +1,6 @@
 import FparserModel.Proofs.RefineMore
+import FparserModel.Proofs.RefineExist
+import FparserModel.Proofs.RefineKeep
 import FparserModel.Props.Reader
 import FparserModel.Props.Reader2
 import FparserModel.Props.Block
@@ -14,9 +16,13 @@ matcher M-D is verified is implemented by the reader model M-B.
 * `lookahead_walk_commutes`   every look-ahead walk (`Reader.runWalk`, the matcher's discipline)
                               commutes with the abstraction; `block_ops_are_get_put`: the block
                               matcher touches the stream through `get` / `put` only;
-* `error_line_is_last_line_of_g` (C07)   `no_read_past_unmatched` + the reader's line accounting;
+* `matcher_only_handles_items_it_got`, `block_run_is_represented`, `chunk_run_is_represented`
+                              the reader can FOLLOW every run of the block model: after every class
+                              call (all outcomes) the stream is represented by a reader chain;
+* `error_line_is_last_line_of_g`(`_total`) (C07)  `no_read_past_unmatched` + the reader's line
+                              accounting; `error_line_not_before_g` for every source;
 * `comments_are_leaves_once` (C11/C14)   `read_comments_once` + `comments_once_in_order`;
-* `block_backtracking_is_invisible` (C12/C13)  `fail_restores` through the abstraction.
+* `block_backtracking_is_invisible`(`_total`) (C12/C13)  `fail_restores` through the abstraction.
 
 Every statement is for all tables, oracles, fuels, file systems, reader states / chunk lists.
 -/
@@ -65,7 +71,7 @@ theorem absStream_after (dir : Item → Bool) (d : Nat) (fs : Fs) (st0 hw fin0 :
   rw [futureItems_of_drainEv hdr]
   subst hl
   refine ⟨[], hw, r, rfl, hr, (fun p hp => by cases hp), rfl, by simp, by simpa using ⟨fuel, hdr⟩,
-    (fun _ => by simpa using hg), (fun he => by cases he)⟩
+    (fun _ => by simpa using hg), (fun he => by cases he), by simp⟩
 
 /-- the representation determines everything the parser can observe of the reader later on:
     the `Drains` future of the chain is the decoded content (`buf ++ rest`) of the stream -/
@@ -112,6 +118,69 @@ theorem walk_restore_both (dir : Item → Bool) (d : Nat) (fs : Fs) (st0 : List 
 theorem block_ops_are_get_put (env : Block.Env) (fuel : Nat) (c : Block.Cls) (st : Block.St) :
     Block.SSteps st.stream (Block.run env fuel c st).2.stream :=
   Block.run_rel (Block.opsR_ok env) fuel c st
+
+/-- THE MATCHER ONLY HANDLES ITEMS IT GOT (block model alone, any item predicate `P`): if every
+    item of the stream — put back or still to come — satisfies `P` when a class is called, then
+    so does every item of the stream afterwards and every leaf of the returned tree.  Every
+    table, oracle, fuel, class, state, outcome: nothing is ever fabricated, whatever is put back
+    or kept in a tree came out of the stream. -/
+theorem matcher_only_handles_items_it_got (P : Block.Item → Prop) (env : Block.Env) (fuel : Nat)
+    (c : Block.Cls) (st : Block.St) (h : ∀ x ∈ st.stream.all, P x) :
+    (∀ x ∈ (Block.run env fuel c st).2.stream.all, P x) ∧
+    (∀ t, (Block.run env fuel c st).1 = .tree t → ∀ x ∈ t.frontier, P x) := by
+  have := Block.run_in (P := P) env fuel c st h
+  refine ⟨this.1, fun t ht => ?_⟩
+  have h2 := this.2
+  rw [ht] at h2
+  exact h2
+
+/-- THE READER CAN FOLLOW EVERY RUN OF THE BLOCK MODEL.  If the stream of a block-model state is
+    represented by a reader chain, then after ANY class call — every table, oracle, fuel, class,
+    every outcome including every exception — the stream is again represented by a reader chain,
+    and every leaf of a returned tree is the image of a reader item at its position (`Genuine`).
+    Proof: the matcher only handles items it got (`Block.run_in`, an induction over all of
+    `eval` for an arbitrary item predicate), touches the stream by `get` / `put` only
+    (`block_ops_are_get_put`), and every well-shaped stream of genuine items is an abstraction
+    (`abs_of_shape`).  `hret` / `hretF`: the items may be put back at the chains the reader goes
+    through (for chunk layouts: `chunk_run_is_represented`). -/
+theorem block_run_is_represented (dir : Item → Bool) (d : Nat) (fs : Fs) (st0 : List Rd)
+    (xs0 : List Item) (fin0 : List Rd)
+    (hd : Drains (d + 1) fs st0 (evItems xs0) fin0) (hne : st0 ≠ [])
+    (hret : ∀ k zs hw r, k ≤ xs0.length → getN (d + 1) fs k st0 = some (zs, hw) →
+      innermost hw = some r → ∀ x ∈ xs0, returnable fs r x = true)
+    (hretF : ∀ r, innermost fin0 = some r → ∀ x ∈ xs0, returnable fs r x = true)
+    (env : Block.Env) (fuel : Nat) (c : Block.Cls) (st : Block.St) (rd : List Rd)
+    (h : Abs dir d fs st0 xs0 fin0 rd st.stream) :
+    (∃ rd', Abs dir d fs st0 xs0 fin0 rd' (Block.run env fuel c st).2.stream) ∧
+    (∀ t, (Block.run env fuel c st).1 = .tree t → ∀ a ∈ t.frontier, Genuine dir xs0 a) :=
+  abs_preserved_by_run hd hne hret hretF env fuel c st rd h
+
+/-- the final reader state of a chunk source (`read_comments_once`) -/
+def finOf (r : Rd) (cs : List Chunk) : List Rd :=
+  [{ r with src := [], linecount := r.linecount + totalLines cs,
+            linesRev := ((srcOf cs).map cook).reverse ++ r.linesRev, closed := true }]
+
+/-- CHUNK LAYOUTS, no side condition: for a free-form source made of clean chunks (comments kept
+    or ignored), every run of the block model on the stream of that reader — started at the
+    beginning — ends in a stream that is represented by a reader chain. -/
+theorem chunk_run_is_represented (dir : Item → Bool) (d : Nat) (fs : Fs) (o : Bool) (cs : List Chunk)
+    (r : Rd) (hok : ∀ c ∈ cs, c.ok o) (h0 : r.omp = o) (hfifo : r.fifo = []) (h1 : r.filo = [])
+    (h2 : r.closed = false) (h3 : r.isFree = true) (hsrc : r.src = srcOf cs)
+    (hni : ∀ x ∈ chunkItems r.ignoreComments r.linecount cs, NoInc x)
+    (env : Block.Env) (fuel : Nat) (c : Block.Cls) :
+    ∃ rd, Abs dir d fs [r] (chunkItems r.ignoreComments r.linecount cs) (finOf r cs) rd
+      (Block.run env fuel c (Block.St.init (absItems dir 0
+        (chunkItems r.ignoreComments r.linecount cs)))).2.stream := by
+  have hd := (read_comments_once d fs o cs r hok h0 hfifo h1 h2 h3 hsrc hni).1
+  have hret := chunk_returnable d fs o cs r hok h0 hfifo h1 h2 h3 hsrc hni
+  have hretF : ∀ r', innermost (finOf r cs) = some r' →
+      ∀ x ∈ chunkItems r.ignoreComments r.linecount cs, returnable fs r' x = true := by
+    intro r' hi x hx
+    simp only [finOf, innermost, Option.some.injEq] at hi
+    subst hi
+    obtain ⟨hkp, hns⟩ := chunkItems_keep_nosemi r.ignoreComments o cs r.linecount hok x hx
+    exact returnable_of fs _ x hkp hns (hni x hx)
+  exact (block_run_represented (dir := dir) hd (by simp) hret hretF env fuel c).1
 
 /-! ## 2. C07 end to end -/
 
@@ -170,10 +239,10 @@ theorem reader_at_item (dir : Item → Bool) (d : Nat) (fs : Fs) (o : Bool) (cs1
       chunkItems r.ignoreComments r.linecount cs1 ++ c.item (r.linecount + totalLines cs1) ::
         ((c.comments (r.linecount + totalLines cs1)).filter (keep r.ignoreComments) ++
           chunkItems r.ignoreComments (r.linecount + totalLines cs1 + c.lines.length) cs2) := by
-    rw [chunkItems_append]
+    rw [chunkItems_append_rf]
     simp only [chunkItems, List.filter_cons, hk, if_true, List.cons_append]
   have hsrc' : r.src = srcOf cs1 ++ (c.lines ++ srcOf cs2) := by
-    rw [hsrc, srcOf_append]; rfl
+    rw [hsrc, srcOf_append_rf]; rfl
   have hst := steps_to_item o cs1 c (srcOf cs2) r
     (fun c' hc' => hok c' (List.mem_append_left _ hc'))
     (hok c (List.mem_append_right _ List.mem_cons_self)) h0 hfifo h1 h2 h3 hsrc' hkeep
@@ -300,7 +369,7 @@ theorem error_line_is_last_line_of_g
       chunkItems r.ignoreComments r.linecount cs1 ++ c.item (r.linecount + totalLines cs1) ::
         ((c.comments (r.linecount + totalLines cs1)).filter (keep r.ignoreComments) ++
           chunkItems r.ignoreComments (r.linecount + totalLines cs1 + c.lines.length) cs2) := by
-    rw [chunkItems_append]
+    rw [chunkItems_append_rf]
     simp only [chunkItems, List.filter_cons, hk, if_true, List.cons_append]
   -- block side: nothing behind `g` is pulled, no read hits the end
   have hp : sF.pulled = (chunkItems r.ignoreComments r.linecount cs1).length + 1 ∧ sF.eof = false := by
@@ -324,6 +393,37 @@ theorem error_line_is_last_line_of_g
     (hok c (List.mem_append_right _ List.mem_cons_self)) ht h1 hinv
   rw [← hback] at hl
   exact ⟨hp.1, hp.2, ⟨back, hback⟩, hl⟩
+
+/-- C07 END TO END WITHOUT THE REPRESENTATION HYPOTHESIS: same situation as
+    `error_line_is_last_line_of_g`; a reader chain following the run EXISTS
+    (`chunk_run_is_represented`), and it stands on the last line of `g`. -/
+theorem error_line_is_last_line_of_g_total
+    (dir : Item → Bool) (d : Nat) (fs : Fs) (o : Bool) (cs1 cs2 : List Chunk) (c : Chunk) (r : Rd)
+    (hok : ∀ c' ∈ cs1 ++ c :: cs2, c'.ok o) (ht : c.tight)
+    (h0 : r.omp = o) (hfifo : r.fifo = []) (h1 : r.filo = []) (h2 : r.closed = false)
+    (h3 : r.isFree = true) (hinv : Reader.Inv r) (hsrc : r.src = srcOf (cs1 ++ c :: cs2))
+    (hni : ∀ x ∈ chunkItems r.ignoreComments r.linecount (cs1 ++ c :: cs2), NoInc x)
+    (hline : (c.item (r.linecount + totalLines cs1)).isComment = false)
+    (env : Block.Env) (fuel : Nat) (cl : Block.Cls)
+    (hu : Block.Unmatched env (absItem dir (chunkItems r.ignoreComments r.linecount cs1).length
+      (c.item (r.linecount + totalLines cs1))))
+    (hread : (chunkItems r.ignoreComments r.linecount cs1).length <
+      (Block.run env fuel cl (Block.St.init (absItems dir 0
+        (chunkItems r.ignoreComments r.linecount (cs1 ++ c :: cs2))))).2.stream.pulled) :
+    ∃ rd back,
+      Abs dir d fs [r] (chunkItems r.ignoreComments r.linecount (cs1 ++ c :: cs2))
+        (finOf r (cs1 ++ c :: cs2)) rd
+        (Block.run env fuel cl (Block.St.init (absItems dir 0
+          (chunkItems r.ignoreComments r.linecount (cs1 ++ c :: cs2))))).2.stream ∧
+      rd = putMany back [afterItem r cs1 c (srcOf cs2)] ∧
+      linecount rd = (c.item (r.linecount + totalLines cs1)).last ∧
+      linecount rd = r.linecount + totalLines cs1 + c.lines.length ∧
+      (sourceLines rd)[linecount rd - 1]? = (c.lines.map cook).getLast? := by
+  obtain ⟨rd, hrep⟩ := chunk_run_is_represented dir d fs o (cs1 ++ c :: cs2) r hok h0 hfifo h1 h2 h3
+    hsrc hni env fuel cl
+  obtain ⟨_, _, ⟨back, hb⟩, e1, e2, e3⟩ := error_line_is_last_line_of_g dir d fs o cs1 cs2 c r hok ht
+    h0 hfifo h1 h2 h3 hinv hsrc hni hline env fuel cl hu _ rd _ rfl hrep hread
+  exact ⟨rd, back, hrep, hb, e1, e2, e3⟩
 
 /-- C07, block half next to `no_read_past_unmatched`: while an item matched by no class is ahead,
     NO read of any class call hits the end of the source — for every table, oracle, fuel, class
@@ -355,7 +455,8 @@ theorem continuation_comments_inside_span (l1 l2 : Str) (ls : List Str) (b1 : St
     Then the leaves of the tree of kind `k` (Comment items: `k = .comment`; preprocessor lines:
     `k = .cpp`; statements) ARE, decoded by their position in the delivery order, the items of that
     kind of the source — every comment line and every comment inside a continued statement —
-    each exactly once, in source order. -/
+    each exactly once, in source order; and the whole frontier of the tree is the sequence of
+    delivered items. -/
 theorem comments_are_leaves_once (dir : Item → Bool) (d : Nat) (fs : Fs) (o : Bool) (cs : List Chunk)
     (r : Rd) (hok : ∀ c ∈ cs, c.ok o) (h0 : r.omp = o) (hfifo : r.fifo = []) (h1 : r.filo = [])
     (h2 : r.closed = false) (h3 : r.isFree = true) (hic : r.ignoreComments = false)
@@ -369,15 +470,20 @@ theorem comments_are_leaves_once (dir : Item → Bool) (d : Nat) (fs : Fs) (o : 
     (hd : Block.D st' = Block.D (Block.St.init (absItems dir 0 (chunkItems false r.linecount cs)))) :
     (∃ fin, Drains (d + 1) fs [r] (evItems (chunkItems false r.linecount cs)) fin) ∧
     (t.frontier.filter (fun a => decide (a.kind = k))).map (decode (chunkItems false r.linecount cs)) =
-      ((chunkItems false r.linecount cs).filter (fun x => decide (absKind x = k))).map some := by
+      ((chunkItems false r.linecount cs).filter (fun x => decide (absKind x = k))).map some ∧
+    t.frontier = absItems dir 0 (chunkItems false r.linecount cs) := by
   have hdr := (read_comments_once d fs o cs r hok h0 hfifo h1 h2 h3 hsrc (by rw [hic]; exact hni)).1
   rw [hic] at hdr
-  refine ⟨⟨_, hdr⟩, ?_⟩
-  have := Block.comments_once_in_order (fun a => decide (a.kind = k)) env fuel cl unit main0 _ st' t
-    hk hq h hd
-  simp only [Block.itemsOf, Block.St.init, Block.Stream.all, List.nil_append] at this
-  rw [← this]
-  exact absItems_filter_decode_all dir _ k
+  refine ⟨⟨_, hdr⟩, ?_, ?_⟩
+  · have := Block.comments_once_in_order (fun a => decide (a.kind = k)) env fuel cl unit main0 _ st' t
+      hk hq h hd
+    simp only [Block.itemsOf, Block.St.init, Block.Stream.all, List.nil_append] at this
+    rw [← this]
+    exact absItems_filter_decode_all dir _ k
+  · have h1 := Block.frontier_eq_consumed env (fuel + 1) cl _ st' t h hd
+    have h2 := Block.program_consumes_all env fuel cl unit main0 _ st' t hk h (Or.inl hq)
+    rw [h2, List.append_nil] at h1
+    simpa [Block.St.init, Block.Stream.all] using h1.symm
 
 /-! ## 4. C12 / C13: back-tracking of the block matcher is invisible to the reader -/
 
@@ -398,6 +504,26 @@ theorem block_backtracking_is_invisible (dir : Item → Bool) (d : Nat) (fs : Fs
     · exact Block.fail_restores env fuel c st st' h hd
     · exact Block.nomatch_restores env fuel c st st' h hd
   exact abs_same_future ha ha' hall
+
+/-- … and such chains exist: from a represented state, after a class call that ends in no-match
+    there is a reader chain represented by the new stream, with the same complete future. -/
+theorem block_backtracking_is_invisible_total (dir : Item → Bool) (d : Nat) (fs : Fs) (st0 : List Rd)
+    (xs0 : List Item) (fin0 rd : List Rd)
+    (hd : Drains (d + 1) fs st0 (evItems xs0) fin0) (hne : st0 ≠ [])
+    (hret : ∀ k zs hw r, k ≤ xs0.length → getN (d + 1) fs k st0 = some (zs, hw) →
+      innermost hw = some r → ∀ x ∈ xs0, returnable fs r x = true)
+    (hretF : ∀ r, innermost fin0 = some r → ∀ x ∈ xs0, returnable fs r x = true)
+    (env : Block.Env) (fuel : Nat) (c : Block.Cls)
+    (st st' : Block.St) (out : Block.Outcome)
+    (h : Block.run env fuel c st = (out, st')) (ho : out = .none ∨ out = .raise .noMatch)
+    (hdrop : Block.D st' = Block.D st) (ha : Abs dir d fs st0 xs0 fin0 rd st.stream) :
+    ∃ rd' fut, Abs dir d fs st0 xs0 fin0 rd' st'.stream ∧
+      Drains (d + 1) fs rd (evItems fut) fin0 ∧ Drains (d + 1) fs rd' (evItems fut) fin0 := by
+  obtain ⟨rd', ha'⟩ := (block_run_is_represented dir d fs st0 xs0 fin0 hd hne hret hretF env fuel c st rd ha).1
+  rw [h] at ha'
+  obtain ⟨fut, f1, f2⟩ := block_backtracking_is_invisible dir d fs st0 xs0 fin0 rd rd' env fuel c st st'
+    out h ho hdrop ha ha'
+  exact ⟨rd', fut, ha', f1, f2⟩
 
 end Fp.Refine
 
@@ -640,6 +766,70 @@ example : ∀ x ∈ (contChunk "b = &".toList " ! in".toList ["  2".toList] "b =
   continuation_comments_inside_span _ _ _ _ _ _ _ _
     (by simp only [WFc, CLine.ok, CLine.isLast, CleanBody, Blanks, NoC]; decide) 2
 
+theorem noSemiT : ∀ x ∈ [x0, x2, x4], NoSemi x := by
+  intro x hx
+  simp only [List.mem_cons, List.not_mem_nil, or_false] at hx
+  rcases hx with rfl | rfl | rfl <;>
+    (intro text l n s e hv
+     simp only [x0, x2, x4, Item.lineView, Option.some.injEq, Prod.mk.injEq] at hv
+     rw [← hv.1]; decide +kernel)
+
+/-- the statement / directive items of the demo source may be put back at ANY reader -/
+theorem retT (fs : Fs) (r : Rd) : ∀ x ∈ [x0, x2, x4], returnable fs r x = true := by
+  intro x hx
+  refine returnable_of fs r x ?_ (noSemiT x hx) (noIncT x hx)
+  simp only [List.mem_cons, List.not_mem_nil, or_false] at hx
+  rcases hx with rfl | rfl | rfl <;> rfl
+
+/-- INSTANCE of `block_run_is_represented` (and of `Block.run_in`): the run of `Program` on the
+    demo source is followed by a reader chain — no replay needed -/
+example : ∃ fin rd', Abs (fun _ => false) 0 [] [rd0 true] [x0, x2, x4] fin rd'
+    (Block.run envC07 12 0 (Block.St.init (absItems (fun _ => false) 0 [x0, x2, x4]))).2.stream := by
+  obtain ⟨fin, hd⟩ := drainsT
+  have ha := (reader_refines_stream (fun _ => false) 0 [] [rd0 true] _ fin hd (by simp)).2.1
+  obtain ⟨rd', h⟩ := (block_run_is_represented (fun _ => false) 0 [] [rd0 true] [x0, x2, x4] fin hd (by simp)
+    (fun _ _ _ r _ _ _ => retT [] r) (fun r _ => retT [] r) envC07 12 0
+    (Block.St.init (absItems (fun _ => false) 0 [x0, x2, x4])) [rd0 true] ha).1
+  exact ⟨fin, rd', h⟩
+
+/-- INSTANCE of `error_line_is_last_line_of_g_total` / `chunk_run_is_represented`: the same
+    conclusion as above (`linecount = 5`, `source_lines[4] = "  2"`) with no representation
+    hypothesis at all -/
+example : ∃ rd : List Rd, linecount rd = 5 ∧ (sourceLines rd)[4]? = some "  2".toList := by
+  have hitems : chunkItems (rd0 true).ignoreComments (rd0 true).linecount
+      ([stmtChunk "10 a = 1".toList "a = 1".toList (some 10) none,
+        commentChunk "  ! top".toList " top".toList] ++
+      contChunk "b = &".toList " ! in".toList ["  2".toList] "b = ".toList none none
+        (.comment " ! in".toList) [.cont "  ".toList "2".toList false false] ::
+      [cppChunk "#endif".toList []]) = [x0, x2, x4] := itemsT
+  have hl : (chunkItems (rd0 true).ignoreComments (rd0 true).linecount
+      [stmtChunk "10 a = 1".toList "a = 1".toList (some 10) none,
+        commentChunk "  ! top".toList " top".toList]).length = 1 := by decide +kernel
+  obtain ⟨rd, back, _, _, _, hlc, hsl⟩ := error_line_is_last_line_of_g_total (fun _ => false) 0 [] false
+    [stmtChunk "10 a = 1".toList "a = 1".toList (some 10) none, commentChunk "  ! top".toList " top".toList]
+    [cppChunk "#endif".toList []]
+    (contChunk "b = &".toList " ! in".toList ["  2".toList] "b = ".toList none none
+      (.comment " ! in".toList) [.cont "  ".toList "2".toList false false])
+    (rd0 true) demoChunks_ok
+    (contChunk_tight _ _ _ _ _ _ _ _ (Cooked.cons (by decide) Cooked.nil))
+    rfl rfl rfl rfl rfl (mk'_ok _ _ _ _ _ _).1 rfl
+    (by rw [hitems]; exact noIncT) rfl envC07 12 0
+    (by
+      refine ⟨by decide +kernel, fun c => Or.inl ?_⟩
+      show (orcC07 (chunkItems (rd0 true).ignoreComments (rd0 true).linecount _).length c).res = .none
+      rw [hl]; rfl)
+    (by rw [hitems, hl, runC07.2]; decide +kernel)
+  have hlc5 : linecount rd = 5 := hlc
+  refine ⟨rd, hlc5, ?_⟩
+  rw [hlc5] at hsl
+  rw [hsl]
+  decide +kernel
+
+/-- INSTANCE of `matcher_only_handles_items_it_got`: identities below 3 stay below 3 -/
+example : ∀ x ∈ (Block.run envC07 12 0
+    (Block.St.init (absItems (fun _ => false) 0 [x0, x2, x4]))).2.stream.all, x.id < 3 :=
+  (matcher_only_handles_items_it_got (fun a => a.id < 3) envC07 12 0 _ (by decide)).1
+
 /-- the get/put events of that run follow the discipline `Lifo` -/
 example : Lifo [] (Block.run envC07 12 0
     (Block.St.init (absItems (fun _ => false) 0 [x0, x2, x4]))).2.log.reverse = true := by
@@ -717,7 +907,7 @@ example : ∃ t st', Block.run envC11 13 0
     | tree t =>
       have h := (comments_are_leaves_once (fun _ => false) 0 [] false demoChunks (rd0 false) demoChunks_ok
         rfl rfl rfl rfl rfl rfl rfl (by rw [hitems]; exact noIncF) .comment envC11 12 0 1 7 st' t rfl rfl
-        (by rw [hitems]; exact hr) (by rw [hitems]; exact hD)).2
+        (by rw [hitems]; exact hr) (by rw [hitems]; exact hD)).2.1
       rw [hitems] at h
       exact ⟨t, st', rfl, h.trans (by decide +kernel)⟩
 
@@ -758,5 +948,33 @@ example : ∃ fin rd' fut,
       [rd0 true] (putItem x0 (cget 0 [] [rd0 true]).2) _ 12 5 _ st' out hr (Or.inl ho) hD ha
       (by rw [hs]; exact h2)
     exact ⟨fin, _, fut, hk, rfl, f1, f2⟩
+
+open Fp.Block.W in
+/-- INSTANCE of `block_backtracking_is_invisible_total` -/
+example : ∃ fin rd' fut,
+    Abs (fun _ => false) 0 [] [rd0 true] [x0, x2, x4] fin rd'
+      (Block.run (env {} (fun _ _ => ans .none)) 12 5
+        (Block.St.init (absItems (fun _ => false) 0 [x0, x2, x4]))).2.stream ∧
+    Drains 1 [] [rd0 true] (evItems fut) fin ∧ Drains 1 [] rd' (evItems fut) fin := by
+  obtain ⟨fin, hd⟩ := drainsT
+  have ha := (reader_refines_stream (fun _ => false) 0 [] [rd0 true] _ fin hd (by simp)).2.1
+  have hk : Block.W.outKind (Block.run (env {} (fun _ _ => ans .none)) 12 5
+      (Block.St.init (absItems (fun _ => false) 0 [x0, x2, x4]))).1 = 1 := by decide +kernel
+  have hD : Block.D (Block.run (env {} (fun _ _ => ans .none)) 12 5
+      (Block.St.init (absItems (fun _ => false) 0 [x0, x2, x4]))).2 =
+      Block.D (Block.St.init (absItems (fun _ => false) 0 [x0, x2, x4])) := by decide +kernel
+  cases hr : Block.run (env {} (fun _ _ => ans .none)) 12 5
+      (Block.St.init (absItems (fun _ => false) 0 [x0, x2, x4])) with
+  | mk out st' =>
+    rw [hr] at hk hD
+    have ho : out = .none := by
+      cases out with
+      | none => rfl
+      | tree t => cases hk
+      | raise e => cases e <;> cases hk
+    obtain ⟨rd', fut, h1, h2, h3⟩ := block_backtracking_is_invisible_total (fun _ => false) 0 []
+      [rd0 true] [x0, x2, x4] fin [rd0 true] hd (by simp) (fun _ _ _ r _ _ _ => retT [] r)
+      (fun r _ => retT [] r) _ 12 5 _ st' out hr (Or.inl ho) hD ha
+    exact ⟨fin, rd', fut, h1, h2, h3⟩
 
 end Fp.Refine.Demo
